@@ -74,8 +74,25 @@ def dims_from_shape_arg(v):
     return None
 
 
-def shape_terms(dims):
-    return tuple(A.dim_term(d) if d.known() else unk("dim") for d in dims)
+def shape_terms(dims, fallback=None):
+    """terms of a shape; unknown dims fall back to the term of the requesting argument"""
+    out = []
+    for i, d in enumerate(dims):
+        if d.known():
+            out.append(A.dim_term(d))
+        elif fallback is not None and i < len(fallback):
+            out.append(fallback[i])
+        else:
+            out.append(T("unkdim"))
+    return tuple(out)
+
+
+def shape_arg_terms(v):
+    if v is None:
+        return None
+    if v.kind in ("tuple", "list") and v.items is not None:
+        return [x.term for x in v.items]
+    return [v.term]
 
 
 def fresh_arr(term, shape, labels=frozenset(), dtype=None):
